@@ -248,6 +248,49 @@ impl Monitor for C13 {
                     }
                 }
             }
+            // the same rewrite applied many times over: k redundant bracket pairs, k prefix signs, k
+            // nested floor( ) against k nested ⌊ ⌋, k nested mod( , ) against k nested (( )%( )), k
+            // white-space characters; counts around the powers of two (repetitions())
+            {
+                let z = Val::zero(ev);
+                let cap = rep_cap(&ctx.config);
+                let reps = repetitions(ev, cap);
+                let by = |fam: &str| -> Vec<(usize, String)> { reps.iter().filter(|(f, _, _)| f == fam).map(|(_, k, s)| (*k, s.clone())).collect() };
+                let mut pairs: Vec<(&str, String, String, usize)> = vec![];
+                for (k, s) in by("nest ( )") {
+                    pairs.push(("redundant-brackets", "7".into(), s.clone(), k));
+                    pairs.push(("redundant-brackets", "1+7*2".into(), format!("1+{}*2", s), k));
+                    pairs.push(("redundant-brackets", "abs(7)".into(), format!("abs({})", s), k));
+                    pairs.push(("prefix-plus", "7".into(), format!("{}7", "+".repeat(k)), k));
+                    pairs.push(("whitespace", "1+7".into(), format!("1{}+{}7", " ".repeat(k), "\u{2003}".repeat(k)), k));
+                }
+                let fl: std::collections::HashMap<usize, String> = by("nest floor( )").into_iter().collect();
+                for (k, s) in by("nest ⌊ ⌋") {
+                    if let Some(f) = fl.get(&k) {
+                        pairs.push(("floor-bracket", f.clone(), s.clone(), k));
+                    }
+                    let c = s.replace('⌊', "ceil(").replace('⌋', ")");
+                    pairs.push(("ceil-bracket", c, s.replace('⌊', "⌈").replace('⌋', "⌉"), k));
+                }
+                let md: std::collections::HashMap<usize, String> = by("nest mod( ,1000)").into_iter().collect();
+                for (k, s) in by("nest (( )%(1000))") {
+                    if let Some(m) = md.get(&k) {
+                        pairs.push(("mod-operator", m.clone(), s.clone(), k));
+                    }
+                }
+                for (kind, a, b, k) in pairs {
+                    if ctx.mine() {
+                        ctx.check(&Case::pair(ev, kind, &a, z, &b, z).with_extra(&format!("x{}", k)), &|c, st| {
+                            let v = self.judge(c, st);
+                            if let Verdict::Pass { .. } = v {
+                                st.inc("repeated_rewrites_equal");
+                                st.max("max_rewrite_repetitions", k as f64);
+                            }
+                            v
+                        });
+                    }
+                }
+            }
             // every White_Space character at every position of short inputs
             let shorts: Vec<&str> = match ev {
                 Ev::I64 => vec!["12+3", "abs(-4)", "2<<3", "min(1,2)", "7!", "2²", "1 2", "sgn(5)", "2^10"],
@@ -296,7 +339,7 @@ impl Monitor for C13 {
         if a.same(&b) {
             st.inc(&format!("equal.{}.{}", case.kind, if a.is_ok() { "ok" } else { "err" }));
             st.cover("rewrites", &format!("{}/{}", ev.name(), case.kind));
-            if case.kind == "whitespace" && !case.extra.is_empty() {
+            if case.kind == "whitespace" && case.extra.starts_with("U+") {
                 st.cover("whitespace_characters", case.extra.split('@').next().unwrap_or(""));
             }
             pass(true)
